@@ -335,6 +335,24 @@ class SMUserList(UserList, ABC):
     def __ge__(self, other):
         return NotImplementedError
 
+    def __add__(self, other):
+        """
+        Concatenate two instances (SMUserList superclass method)
+
+        :raises ValueError: the operands are of different classes
+
+        As for a Python list, ``+`` concatenates the values of two instances of
+        the same class.  Subclasses with arithmetic addition override this.
+        """
+        if type(self) != type(other):
+            raise ValueError("can't concatenate different type of object")
+        return super().__add__(other)
+
+    def __iadd__(self, other):
+        if type(self) != type(other):
+            raise ValueError("can't concatenate different type of object")
+        return super().__iadd__(other)
+
     def append(self, item):
         """
         Append a value to an instance (SMUserList superclass method)
